@@ -181,7 +181,14 @@ impl<'r> SrcGen<'r> {
             9 => format!("sort([3, {}, 2])", small_int(self.r)),
             10 => format!("max({}, {})", small_int(self.r), small_int(self.r)),
             11 => format!("abs({})", V::Int(small_int(self.r)).render()),
-            12 => "timestamp(86400).getDayOfWeek()".to_string(),
+            12 if self.r.chance(1, 2) => "timestamp(86400).getDayOfWeek()".to_string(),
+            12 => {
+                // a deciding / failing predicate over the keys of a map: an error today (these
+                // macros range over lists), whatever it is it must not depend on the hash keys
+                let m = "{'a': 1, 'b': 0, 'c': 2, 'd': 0, 'e': 5}";
+                let k = *self.r.pick(&["all", "exists", "exists_one"]);
+                format!("{}.{}(k, 10 / {}[k] > 3)", m, k, m)
+            }
             _ => format!("{}.startsWithI('H')", s),
         }
     }
@@ -533,7 +540,9 @@ fn gen11(seed: u64) -> WorldCase {
                 if let Some(b) = my_binds.get(r.usize(my_binds.len().max(1))) {
                     // a bound function; the name never collides with a built-in (C09 leaves
                     // rebound built-ins out of scope)
-                    let name = r.pick(&["myf", "g1"]).to_string();
+                    // (sometimes a built-in's name: whether the caller's function or the
+                    // built-in is used must not depend on what happened before)
+                    let name = r.pick(&["myf", "g1", "myf", "g1", "size", "toUpper", "contains"]).to_string();
                     ops.push(Op { t, k: OpK::BindFunc { b: *b, name, ret: value(&mut r, 1) } });
                 }
             }
@@ -662,7 +671,7 @@ fn gen11(seed: u64) -> WorldCase {
 pub fn c11_enumerated() -> u64 {
     (C11_FAMILIES * C11_VARIANTS) as u64
 }
-const C11_FAMILIES: usize = 8;
+const C11_FAMILIES: usize = 9;
 const C11_VARIANTS: usize = 12;
 
 fn gen11_enumerated(k: u64, seed: u64) -> WorldCase {
@@ -808,6 +817,24 @@ fn gen11_enumerated(k: u64, seed: u64) -> WorldCase {
             }
             ops.push(Op { t: 0, k: OpK::CloneB { from: 0, to: 1 } });
             exec(&mut ops, &mut r, 0, "p1", 1, 1);
+        }
+        8 => {
+            // the caller binds a function under a built-in's name: whatever that does to a
+            // call with constant arguments, it does not depend on when the program was added
+            label = "rebound-builtin";
+            let (fname, text) = [("toUpper", "'abc'.toUpper()"), ("size", "size('abc')"), ("contains", "'abc'.contains('b')"), ("max", "max(1, 2)")][var % 4];
+            add(&mut ops, 0, "p0", text);
+            add(&mut ops, 0, "p2", &format!("[{}, x0]", text));
+            bind(&mut ops, 0, "x0", V::Int(1));
+            exec(&mut ops, &mut r, 0, "p0", 0, 1);
+            ops.push(Op { t: 0, k: OpK::NewB { b: 1 } });
+            bind(&mut ops, 1, "x0", V::Int(2));
+            ops.push(Op { t: 0, k: OpK::BindFunc { b: 1, name: fname.to_string(), ret: V::s("caller's function") } });
+            exec(&mut ops, &mut r, 0, "p0", 1, 1);
+            add(&mut ops, 0, "p1", text);
+            for (n, b) in [("p1", 1usize), ("p0", 1), ("p2", 1), ("p1", 0), ("p0", 0)] {
+                exec(&mut ops, &mut r, 0, n, b, 1);
+            }
         }
         _ => {
             // a Program compiled once and placed in two contexts, executed with different
@@ -971,7 +998,7 @@ fn gen11_interleave(seed: u64) -> WorldCase {
 // ---------------------------------------------------------------------------------------------
 
 /// (text, every evaluation reads the clock)
-const CLOCK_TEXTS: [(&str, bool); 50] = [
+const CLOCK_TEXTS: [(&str, bool); 57] = [
     ("now()", true),
     ("timestamp()", true),
     ("now() - timestamp(0)", true),
@@ -1026,6 +1053,15 @@ const CLOCK_TEXTS: [(&str, bool); 50] = [
     ("size(['a'.now(), 1])", true),
     ("[1, 2].map(v, [v.now()])", true),
     ("{'t': ['a'.now()]}", true),
+    // a null argument that is not a literal null: a loop variable, a match result
+    ("[null].map(v, timestamp(v))", true),
+    ("[5, null].map(v, timestamp(v))[1]", true),
+    ("timestamp(match 0 { case _: null })", true),
+    // method-style calls on constant null / bool receivers
+    ("[null.now()]", true),
+    ("size([true.now(), 1])", true),
+    ("{'a': null}.a.now()", true),
+    ("[(1 == 1).now()]", true),
 ];
 
 /// wrappers the constant folder could evaluate if their argument were constant
@@ -1233,6 +1269,13 @@ fn edge(construct: &str, tag: &str, next: &str) -> String {
         // an ordinary failure, the chain still ends in an error
         "or_absorbed" => format!("'{}' + (({} || true) ? 'y' : 'n')", tag, next),
         "list_element" => format!("'{}' + string(size([{}, 1]))", tag, next),
+        "fstring_absorbed" => format!("'{}' + (((f'{{{}}}' == 'x') || true) ? 'y' : 'n')", tag, next),
+        "ctor_absorbed" => format!("'{}' + (((string({}) == 'x') || true) ? 'y' : 'n')", tag, next),
+        "call_arg_absorbed" => format!("'{}' + (((idf({}) == 'x') || true) ? 'y' : 'n')", tag, next),
+        "macro_absorbed" => format!("'{}' + ((([1].map(v, {})[0] == 'x') || true) ? 'y' : 'n')", tag, next),
+        "coalesce_absorbed" => format!("'{}' + (((coalesce({}, 'n') == 'x') || true) ? 'y' : 'n')", tag, next),
+        "has_absorbed" => format!("'{}' + ((has({}) || true) ? 'y' : 'n')", tag, next),
+        "ctor_in_list" => format!("'{}' + string(size([string({})]))", tag, next),
         _ => format!("f'{}{{{}}}'", tag, next),
     }
 }
@@ -1248,6 +1291,9 @@ enum Sc {
     /// `method`: the call is written in receiver position (`x0.map(v, v)`), resolved by
     /// the interpreter's member-call path instead of the free-call path
     FuncVsMacro { mac: &'static str, method: bool },
+    /// a function bound under a built-in function's or type's name, called inside a macro
+    /// body (one and two macros deep) with a non-constant argument
+    FuncInMacroBody { name: &'static str },
     FieldVsMethod { method: &'static str },
     /// `via_macro`: the referencing program mentions q only inside a macro body;
     /// `clone_alive`: a clone of the context is taken after the first exec and kept
@@ -1353,6 +1399,9 @@ fn scenarios(thorough: bool) -> Vec<Sc> {
     for t in ["int", "uint", "double", "string", "bool", "bytes", "duration", "timestamp", "type"] {
         v.push(Sc::FuncVsType { ty: t });
     }
+    for n in ["size", "int", "string", "toUpper", "max", "coalesce"] {
+        v.push(Sc::FuncInMacroBody { name: n });
+    }
     v.push(Sc::FuncVsMacro { mac: "coalesce", method: false });
     v.push(Sc::FuncVsMacro { mac: "has", method: false });
     for m in ["all", "exists", "exists_one", "filter", "map", "reduce"] {
@@ -1401,7 +1450,7 @@ fn scenarios(thorough: bool) -> Vec<Sc> {
             }
         }
     }
-    for c in ["or_absorbed", "list_element"] {
+    for c in ["or_absorbed", "list_element", "fstring_absorbed", "ctor_absorbed", "call_arg_absorbed", "macro_absorbed", "coalesce_absorbed", "has_absorbed", "ctor_in_list"] {
         for len in 1..=3usize {
             for entry in 0..=1usize {
                 v.push(Sc::Cycle { construct: c, len, entry });
@@ -1541,6 +1590,18 @@ fn build12(sc: &Sc, seed: u64) -> WorldCase {
             bind(&mut ops, "x0", V::Int(3));
             add(&mut ops, "main", format!("{}(x0)", ty));
             expect(&mut ops, &mut r, "main", Want::Val(tag("func", ty, uniq)));
+        }
+        Sc::FuncInMacroBody { name } => {
+            label = "call-function-inside-macro-body".into();
+            ops.push(Op { t: t_exec, k: OpK::BindFunc { b: 0, name: name.to_string(), ret: tag("func", name, uniq) } });
+            bind(&mut ops, "x0", V::List(vec![V::s("ab"), V::s("cde")]));
+            let t = tag("func", name, uniq);
+            add(&mut ops, "main", format!("x0.map(w, {}(w))", name));
+            expect(&mut ops, &mut r, "main", Want::Val(V::List(vec![t.clone(), t.clone()])));
+            add(&mut ops, "nested", format!("[x0].map(l, l.map(w, {}(w)))", name));
+            expect(&mut ops, &mut r, "nested", Want::Val(V::List(vec![V::List(vec![t.clone(), t.clone()])])));
+            add(&mut ops, "top", format!("{}(x0[0])", name));
+            expect(&mut ops, &mut r, "top", Want::Val(t));
         }
         Sc::FuncVsMacro { mac, method } => {
             label = format!("call-function-before-macro{}", if *method { ":method" } else { "" });
